@@ -14,6 +14,23 @@ pub fn main() {
             libc::setrlimit(libc::RLIMIT_AS, &lim);
         }
     }
+    // `c06 --dump-corpus DIR`: write every entry's valid instances as tapes (0xff = raw mode, then the bytes)
+    {
+        let args: Vec<String> = std::env::args().collect();
+        if let Some(i) = args.iter().position(|a| a == "--dump-corpus") {
+            let dir = std::path::PathBuf::from(&args[i + 1]);
+            for e in parsers::entries() {
+                let d = dir.join(e.name);
+                std::fs::create_dir_all(&d).expect("create corpus dir");
+                for (n, seed) in (e.seeds)().into_iter().enumerate() {
+                    let mut tape = vec![0xffu8];
+                    tape.extend_from_slice(&seed);
+                    std::fs::write(d.join(format!("seed{n}")), tape).expect("write seed");
+                }
+            }
+            return;
+        }
+    }
     let mut ck = Check::new("C06", "exploration");
     ck.rule("Per entry point: inputs decoded from the tape are either raw bytes (25%) or structure-aware mutations (0..4 of: bit flip, byte set, truncate, span duplicate/delete, 32-bit BE field := extreme value, 4-hex-digit length := {0..5,7fff,fff0..ffff}, splice of two valid instances, insert) of valid instances (hand-written ones, plus index/commit-graph/multi-pack-index files written by git at start-up). Oracle: the call returns within the deadline without panic/abort (worker subprocess; 6 GiB address-space cap). Non-trivial: a mutated valid instance, or raw input of >= 8 bytes; distinct by input hash.");
     ck.assume("panics are observed in the verdict build (release semantics: debug assertions and overflow checks off)");
